@@ -304,7 +304,7 @@ func cmdCheck(args []string) {
 			for _, k := range known {
 				if k.Kind == "known" && k.Prop == prop && k.Obligation == o.Name {
 					isKnown = true
-					fmt.Printf("KNOWN-FINDING: property=%s %s\n", prop, strings.TrimSpace(strings.TrimPrefix(k.Text, "known:")))
+					fmt.Printf("KNOWN-FINDING: %s\n", strings.TrimSpace(strings.TrimPrefix(k.Text, "known:")))
 				}
 			}
 			if isKnown {
